@@ -5,12 +5,14 @@ d=$1; shift
 wt=/tmp/seedwt-$$
 git -C /repo worktree add -f $wt HEAD -q || exit 2
 PYTHONPATH=$wt /venv/bin/python $d/demo.py >/dev/null 2>&1; echo "demo on clean tree rc=$?"
-if ! git -C $wt apply $d/patch.diff; then echo "patch does not apply"; git -C /repo worktree remove --force $wt; exit 2; fi
+if ! git -C $wt apply $d/patch.diff; then echo "patch does not apply"; git -C /repo worktree remove --force $wt
+rm -rf /tmp/seed-evid-$$; exit 2; fi
 PYTHONPATH=$wt /venv/bin/python $d/demo.py >/dev/null 2>&1; echo "demo on patched tree rc=$?"
 cd /verif
 for p in "$@"; do
-  out=$(VERIF_REPO=$wt timeout 1200 ./check $p --tier quick 2>&1); rc=$?
+  out=$(VERIF_REPO=$wt VERIF_EVID=/tmp/seed-evid-$$ timeout 3000 ./check $p --tier quick 2>&1); rc=$?
   echo "check $p rc=$rc $(echo "$out" | grep -E '^(OK|VIOLATION|MACHINERY)' | head -1 | cut -c1-150)"
   [ $rc -ne 0 ] && mkdir -p /tmp/seedres && echo "$out" | head -30 | cut -c1-600 > /tmp/seedres/$(basename $d)-$p.txt
 done
 git -C /repo worktree remove --force $wt
+rm -rf /tmp/seed-evid-$$
